@@ -1525,6 +1525,8 @@ class Interp:
                 pass
             elif isinstance(s, ast.For):
                 st = self.for_loop(s, st, rets)
+            elif isinstance(s, ast.While) and not s.orelse:
+                st = self.while_loop(s, st, rets)
             else:
                 raise AnalysisError('statement outside the idiom in %s: %s' % (
                     self.cur_func.qualname if self.cur_func else '?', type(s).__name__))
@@ -1542,6 +1544,41 @@ class Interp:
         if isinstance(exc, ast.Call):
             return ast.unparse(exc.func)
         return ast.unparse(exc)
+
+    WHILE_BOUND = 6
+
+    def while_loop(self, s, st, rets):
+        """while <test>: body - unrolled: iteration k runs under (path condition and test); the states that leave the
+        loop are joined.  A loop still live after WHILE_BOUND iterations is outside the idiom (fail closed)."""
+        B = self.B
+        done = None
+        for k in range(self.WHILE_BOUND + 1):
+            if st.cond == 0:
+                break
+            tv = self.eval(s.test, st)
+            try:
+                t = self.truth(tv, st.cond)
+            except Unsupported as u:
+                raise AnalysisError('loop condition outside the idiom in %s: `%s` (%s)' % (
+                    self.cur_func.qualname if self.cur_func else '?', ast.unparse(s.test)[:80], u))
+            go, stop = B.AND(st.cond, t), B.AND(st.cond, B.NOT(t))
+            if stop != 0:
+                ex = st.copy(stop)
+                done = ex if done is None else self.join(ex, done, st)
+            if go == 0:
+                st = st.copy(0)
+                break
+            if k == self.WHILE_BOUND:
+                raise AnalysisError('loop `while %s` in %s is still live after %d iterations' % (
+                    ast.unparse(s.test)[:60], self.cur_func.qualname if self.cur_func else '?', k))
+            self.on_loop_iteration(s, st, k, go)
+            st = self.block(s.body, st.copy(go), rets)
+        if done is None:
+            return st.copy(0)
+        return done
+
+    def on_loop_iteration(self, node, st, k, cond):
+        pass
 
     def for_loop(self, s, st, rets):
         it = self.eval(s.iter, st)
